@@ -1422,3 +1422,138 @@ fn misplaced_construct_cases(thorough: bool, f: &mut dyn FnMut(Case)) {
         }
     }
 }
+
+// ---- (l1) interpolation with a minimum width: rendered values whose grapheme count, UTF-8 length and
+//           display width differ × widths around each of these × every alignment / fill ------------------
+
+/// (koto expression, grapheme count, UTF-8 bytes) of the rendered text (0, 0 = not tabulated)
+pub const WIDTH_VALUES: &[(&str, usize, usize)] = &[
+    ("'abc'", 3, 3),
+    ("''", 0, 0),
+    ("'\u{e9}\u{e9}\u{e9}'", 3, 6),
+    ("'\u{65e5}\u{672c}\u{8a9e}'", 3, 9),
+    ("'e\u{301}o\u{308}'", 2, 6),
+    ("'\u{1f468}\u{200d}\u{1f469}\u{200d}\u{1f467}'", 1, 18),
+    ("'\u{1f1ef}\u{1f1f5}\u{1f1eb}\u{1f1f7}'", 2, 16),
+    ("'a\u{1f44b}\u{1f3fd}b'", 3, 10),
+    ("'\u{feff}\u{200b}x'", 0, 0),
+    ("'\\r\\n\\t'", 0, 0),
+    ("42", 2, 2),
+    ("-1.5", 4, 4),
+    ("1e300", 0, 0),
+    ("null", 4, 4),
+    ("['\u{e9}', '\u{65e5}']", 0, 0),
+    ("('\u{fc}',)", 0, 0),
+    ("{'\u{e9}': '\u{f6}'}", 0, 0),
+    ("od", 2, 6),
+    ("(1..=3)", 0, 0),
+    ("'\u{e9}'.chars()", 0, 0),
+];
+
+fn format_width_cases(thorough: bool, f: &mut dyn FnMut(Case)) {
+    let api = vec!["gen:format-width".to_string()];
+    let pre = "od =\n  @display: || '\u{65e5}\u{672c}'\n";
+    let fills = ["", "*", "0", "\u{e9}", "\u{65e5}", "\u{1f44b}", "e\u{301}", "\u{1f468}\u{200d}\u{1f469}\u{200d}\u{1f467}", " ", "<", "{"];
+    let aligns = ["", "<", "^", ">"];
+    let tails: &[&str] = if thorough { &["", ".0", ".1", ".2", ".40", "?", ".2?", "x", "e"] } else { &["", ".1", ".2", "?"] };
+    for (v, g, b) in WIDTH_VALUES {
+        let mut widths: Vec<usize> = (0..=20).collect();
+        for w in [g.wrapping_sub(1), *g, g + 1, b.wrapping_sub(1), *b, b + 1, 2 * b, 32, 255, 256, 1000, 65_536] {
+            if w < 1_000_000 && !widths.contains(&w) {
+                widths.push(w);
+            }
+        }
+        for fill in fills {
+            for al in aligns {
+                if al.is_empty() && !fill.is_empty() && fill != "0" {
+                    continue; // a fill needs an alignment ("0" is the zero-padding flag)
+                }
+                for tail in tails {
+                    for &w in &widths {
+                        // (specifications the parser refuses are compile errors: not violations)
+                        let text = format!("{}v = {}\nr = '{{v:{}{}{}{}}}'\nsize r\n", pre, v, fill, al, w, tail);
+                        f(Case { kind: 'R', text, group: "format-width", apis: api.clone() });
+                    }
+                }
+            }
+        }
+        // the value written inline, nested interpolation, several padded values in one string
+        let vq = v.replace('\'', "\"");
+        for w in [g.wrapping_sub(1), *g, g + 1, b.wrapping_sub(1), *b, b + 1].into_iter().filter(|w| *w < 1000) {
+            f(Case { kind: 'R', text: format!("{}r = '{{{}:^{}}}|{{{}:>{}}}|{{{}:*<{}}}'\n", pre, vq, w, vq, w, vq, w), group: "format-width", apis: api.clone() });
+            f(Case { kind: 'R', text: format!("{}v = {}\nr = '{{\"{{v:{}}}\":\u{e9}^{}}}'\n", pre, v, w, w + 3), group: "format-width", apis: api.clone() });
+            f(Case { kind: 'R', text: format!("{}v = {}\nr = '{{v:{}}}'.to_tuple()\nprint '{{v:>{}}}'\n", pre, v, w, w), group: "format-width", apis: api.clone() });
+        }
+    }
+}
+
+// ---- (l2) calls with several packed (`xs...`) arguments whose unpacked lengths fit one by one but not
+//           together, mixed with plain arguments, for every kind of callee --------------------------------
+
+fn packed_args_cases(thorough: bool, f: &mut dyn FnMut(Case)) {
+    let api = vec!["gen:register-pressure".to_string(), "gen:packed-args".to_string()];
+    let pre = "f = |args...| size args\nf2 = |a, b, rest...| size rest\nf3 = |a, b| a\nf4 = |a, b = 2, c = 3| c\ngn = |args...|\n  yield size args\no =\n  @call: |args...| size args\nm =\n  f: |args...| size args\nxs = [1, 2, 3]\n";
+    // (call prefix, suffix): the argument list is placed between them
+    let callees: &[(&str, &str)] = &[
+        ("f(", ")"), ("f2(", ")"), ("f3(", ")"), ("f4(", ")"), ("gn(", ").next()"), ("o(", ")"), ("m.f(", ")"), ("xs.push(", ")"), ("size(", ")"), ("type(", ")"),
+        ("verif_regs(", ")"), ("koto.hash(", ")"), ("string.join(", ")"), ("(|args...| size args)(", ")"), ("1 -> f(", ")"), ("xs.each(|x| f(", ")).consume()"), ("'{f(", ")}'"),
+    ];
+    let source = |kind: usize, n: usize| -> String {
+        match kind {
+            0 => format!("(0..{})", n),
+            1 => format!("(0..{}).to_list()", n),
+            2 => format!("(0..{}).to_tuple()", n),
+            3 => format!("'{}'", "a".repeat(n)),
+            4 => format!("(0..{}).each(|x| x)", n),
+            _ => format!("(0..{}).to_map()", n),
+        }
+    };
+    let sums: Vec<usize> = if thorough { (244..=262).collect() } else { vec![250, 251, 252, 253, 254, 255, 256, 257, 260] };
+    let kinds: &[usize] = if thorough { &[0, 1, 2, 3, 4, 5] } else { &[0, 1, 4] };
+    for &s in &sums {
+        let mut splits: Vec<Vec<usize>> = vec![
+            vec![200, s - 200], vec![s - 200, 200], vec![s / 2, s - s / 2], vec![1, s - 1], vec![s - 1, 1], vec![0, s], vec![s, 0], vec![s.saturating_sub(254), 254], vec![254, s.saturating_sub(254)],
+            vec![100, 100, s - 200], vec![s - 2, 1, 1], vec![1, 1, s - 2], vec![0, s - 1, 1], vec![84, 84, s - 168],
+            vec![60, 60, 60, s - 180], vec![1, s - 3, 1, 1], vec![0, 0, s, 0], vec![63, 64, 65, s - 192],
+        ];
+        splits.retain(|sp| sp.iter().all(|l| *l < 258));
+        for sp in &splits {
+            for (ci, (open, close)) in callees.iter().enumerate() {
+                for &kind in kinds {
+                    if !thorough && ci >= 7 && kind != 0 {
+                        continue;
+                    }
+                    let packed: Vec<String> = sp.iter().map(|l| format!("{}...", source(kind, *l))).collect();
+                    // plain arguments: none / before / between / after
+                    let layouts: Vec<String> = vec![
+                        packed.join(", "),
+                        format!("1, 2, {}", packed.join(", ")),
+                        packed.join(", 7, "),
+                        format!("{}, 8, 9", packed.join(", ")),
+                        format!("1, {}, 2", packed.join(", 3, ")),
+                    ];
+                    for (li, args) in layouts.iter().enumerate() {
+                        if !thorough && li >= 2 && (s + ci + li) % 3 != 0 {
+                            continue;
+                        }
+                        f(Case { kind: 'R', text: format!("{}r = {}{}{}\n", pre, open, args, close), group: "packed-args", apis: api.clone() });
+                    }
+                }
+            }
+        }
+    }
+    // many plain arguments and one / two short packed ones at the end of the register window
+    for n in 236..=254usize {
+        for (extra, extra2) in [(0usize, None), (1, None), (2, None), (3, None), (10, None), (1, Some(1usize)), (0, Some(0)), (2, Some(3))] {
+            for (open, close) in &callees[..7] {
+                let zeros = vec!["0"; n].join(", ");
+                let mut args = format!("{}, (0..{})...", zeros, extra);
+                if let Some(e2) = extra2 {
+                    args.push_str(&format!(", (0..{})...", e2));
+                }
+                f(Case { kind: 'R', text: format!("{}r = {}{}{}\n", pre, open, args, close), group: "packed-args", apis: api.clone() });
+                f(Case { kind: 'R', text: format!("{}r = {}(0..{})..., {}{}\n", pre, open, extra, zeros, close), group: "packed-args", apis: api.clone() });
+            }
+        }
+    }
+}
